@@ -48,12 +48,12 @@ func leafFor(kind string, ca, other *tlsm.CA, host string, client bool) *tls.Cer
 
 // attackServer: a peer with the given certificate / max version (or plaintext) talks to a Server prepared by DefaultServerTLSConfig.
 // Returns what ran on the server and whether a KMIP response came back.
-func attackServer(ca, other *tlsm.CA, serverCert tls.Certificate, certKind string, maxVer uint16, plaintext bool) (events string, gotResponse bool, err error) {
+func attackServer(ca, other *tlsm.CA, serverCert tls.Certificate, certKind string, maxVer uint16, plaintext bool, timeout time.Duration) (events string, gotResponse bool, err error) {
 	cfg := &tls.Config{Certificates: []tls.Certificate{serverCert}, ClientCAs: ca.Pool,
 		MinVersion: tls.VersionTLS10, ClientAuth: tls.NoClientCert} // weak prior contents: the defaults must override them
 	kmip.DefaultServerTLSConfig(cfg)
 	var sa, ra, calls int32
-	s := &kmip.Server{TLSConfig: cfg, ReadTimeout: 2 * time.Second, WriteTimeout: 2 * time.Second}
+	s := &kmip.Server{TLSConfig: cfg, ReadTimeout: timeout, WriteTimeout: timeout}
 	s.SessionAuthHandler = func(c net.Conn) (interface{}, error) { atomic.AddInt32(&sa, 1); return nil, nil }
 	s.RequestAuthHandler = func(sc *kmip.SessionContext, a *kmip.Authentication) (interface{}, error) {
 		atomic.AddInt32(&ra, 1)
@@ -162,7 +162,7 @@ func impersonate(ca, other *tlsm.CA, certKind string, maxVer uint16) (connected 
 
 func runC16(r *Result, d *drv.Driver, tier string, seed int64, replay string) {
 	r.Rule = "exhaustive peer matrix against the real crypto/tls: a peer with certificate in {none, valid, self-signed, other CA, expired, wrong host} x max TLS version in {1.0, 1.1, 1.2, 1.3}, plus a plaintext peer, " +
-		"attacks a Server whose config (weak prior contents) went through DefaultServerTLSConfig - observed: session-auth / request-auth / handler invocations and whether a KMIP response came back; and a TLS server with each certificate x version impersonates towards a Client prepared by DefaultClientTLSConfig - observed: Connect result and application bytes received. Expected outcome = the model's handshake predicate. distinct = one per matrix cell"
+		"attacks a Server (with read/write timeouts 2s, and with none) whose config (weak prior contents) went through DefaultServerTLSConfig - observed: session-auth / request-auth / handler invocations and whether a KMIP response came back; and a TLS server with each certificate x version impersonates towards a Client prepared by DefaultClientTLSConfig - observed: Connect result and application bytes received. Expected outcome = the model's handshake predicate. distinct = one per matrix cell"
 	r.Exhaustive = true
 	ca, other := tlsm.NewCA("kmip-test-ca"), tlsm.NewCA("foreign-ca")
 	serverCert := tlsm.Leaf(ca, tlsm.LeafOpts{Host: "kmip.test"})
@@ -170,17 +170,20 @@ func runC16(r *Result, d *drv.Driver, tier string, seed int64, replay string) {
 		kind      string
 		ver       int
 		plaintext bool
+		timeout   time.Duration
 	}
 	var cells []cell
-	for _, k := range certKinds {
-		for vi := range tlsVersions {
-			cells = append(cells, cell{k, vi, false})
+	for _, to := range []time.Duration{2 * time.Second, 0} {
+		for _, k := range certKinds {
+			for vi := range tlsVersions {
+				cells = append(cells, cell{k, vi, false, to})
+			}
 		}
+		cells = append(cells, cell{"none", 3, true, to})
 	}
-	cells = append(cells, cell{"none", 3, true})
 	for _, c := range cells {
-		key := fmt.Sprintf("attack-server cert=%s max=%s plaintext=%v", c.kind, tlsVersions[c.ver].name, c.plaintext)
-		ev, resp, err := attackServer(ca, other, serverCert, c.kind, tlsVersions[c.ver].v, c.plaintext)
+		key := fmt.Sprintf("attack-server cert=%s max=%s plaintext=%v server-timeouts=%v", c.kind, tlsVersions[c.ver].name, c.plaintext, c.timeout)
+		ev, resp, err := attackServer(ca, other, serverCert, c.kind, tlsVersions[c.ver].v, c.plaintext, c.timeout)
 		r.eval(key, true)
 		// model predicate (Tls.serverHandshakeOk after defaultServer): TLS >= 1.2 and a chain to the pool, within validity
 		want := !c.plaintext && tlsVersions[c.ver].v >= tls.VersionTLS12 && (c.kind == "valid" || c.kind == "wrongHost")
